@@ -150,7 +150,9 @@ func runWorker(bin string, cfg *sim.WorkerCfg, scratch string, gomaxprocs int, t
 	cmd := exec.Command(bin, "-test.run", "^TestWorker$", "-test.timeout", "0", "-test.count", "1")
 	cmd.Dir = wscratch
 	cmd.Env = append(os.Environ(), "VERIF_WORKER_CFG="+cfgPath, "VERIF_SCRATCH="+wscratch,
-		"GOMAXPROCS="+strconv.Itoa(gomaxprocs))
+		"GOMAXPROCS="+strconv.Itoa(gomaxprocs),
+		// math/rand's Seed is a no-op since Go 1.24 unless this is set; the syncer draws its peers from the global source
+		"GODEBUG=randseednop=0")
 	logf, _ := os.Create(filepath.Join(scratch, fmt.Sprintf("wlog-%d.txt", cfg.Worker)))
 	cmd.Stdout, cmd.Stderr = logf, logf
 	if err := cmd.Start(); err != nil {
